@@ -141,6 +141,66 @@ func p384Kinds() []kind {
 			o.OutBool("x-p", c.IsOnCurve(new(big.Int).Sub(x, p384P), y))
 			o.OutBool("y-p", c.IsOnCurve(x, new(big.Int).Sub(y, p384P)))
 		}},
+		// points whose x-coordinate is an edge value IN THE MONTGOMERY DOMAIN
+		// (x*2^384 mod p = i*p/d + delta, 0, p - delta, limb patterns): sums
+		// and differences inside the formulas ((x+x)+x, ...) then land next to
+		// 0, p and 2^384, where a carry or a final subtraction decides
+		{"p384.montgomery-edge-point", 120, 3000, func(r *lib.Rng, k int, o *rec) {
+			R := new(big.Int).Lsh(big.NewInt(1), 384)
+			Rinv := new(big.Int).ModInverse(R, p384P)
+			var v *big.Int
+			switch k % 4 {
+			case 0, 1:
+				// all fractions i/d, d <= 8, in turn
+				idx := (k / 2) % 28
+				d, i := int64(2), int64(1)
+				for idx >= int(d-1) {
+					idx -= int(d - 1)
+					d++
+				}
+				i = int64(idx + 1)
+				v = new(big.Int).Div(new(big.Int).Mul(p384P, big.NewInt(i)), big.NewInt(d))
+				v.Add(v, big.NewInt(int64(r.Intn(9)-2)))
+			case 2:
+				v = new(big.Int).Sub(p384P, big.NewInt(int64(1+r.Intn(40))))
+				if r.Bool() {
+					v = big.NewInt(int64(r.Intn(40)))
+				}
+			default:
+				v = new(big.Int).SetBytes(r.EdgeBytes(48, 0))
+				v.Mod(v, p384P)
+			}
+			b := elliptic.P384().Params().B
+			var x, y *big.Int
+			for tries := 0; tries < 64; tries++ {
+				x = new(big.Int).Mod(new(big.Int).Mul(v, Rinv), p384P)
+				rhs := new(big.Int).Exp(x, big.NewInt(3), p384P)
+				rhs.Sub(rhs, new(big.Int).Mul(x, big.NewInt(3)))
+				rhs.Add(rhs, b).Mod(rhs, p384P)
+				y = new(big.Int).Exp(rhs, new(big.Int).Rsh(new(big.Int).Add(p384P, big.NewInt(1)), 2), p384P)
+				if new(big.Int).Exp(y, big.NewInt(2), p384P).Cmp(rhs) == 0 {
+					break
+				}
+				y = nil
+				v.Add(v, big.NewInt(1))
+			}
+			if y == nil {
+				return
+			}
+			lib.Count("c14/Curves/p384:montgomery-edge-points")
+			o.In("x", x.Bytes())
+			o.In("y", y.Bytes())
+			o.OutBool("on", c.IsOnCurve(x, y))
+			x2, y2 := c.Double(x, y)
+			outPt(o, "D", x2, y2)
+			gx, gy := c.ScalarBaseMult([]byte{byte(1 + r.Intn(9))})
+			x3, y3 := c.Add(x, y, gx, gy)
+			outPt(o, "A", x3, y3)
+			s := p384Scalar(r)
+			o.In("s", s)
+			x4, y4 := c.ScalarMult(x, y, s)
+			outPt(o, "M", x4, y4)
+		}},
 		{"p384.CombinedMult", 24, 3000, func(r *lib.Rng, k int, o *rec) {
 			// Q is a RANDOM multiple of G here, so mG = +-nQ cannot be met
 			// inside the loop; that family has its own op (and key) below
@@ -596,7 +656,7 @@ func groupKinds() []kind {
 }
 
 func TestVerifTranscriptCurves(t *testing.T) {
-	lib.Mandatory("c14/Curves/p384:add-equal", "c14/Curves/p384:add-opposite",
+	lib.Mandatory("c14/Curves/p384:add-equal", "c14/Curves/p384:add-opposite", "c14/Curves/p384:montgomery-edge-points",
 		"c14/Curves/fourq:unmarshal-ok", "c14/Curves/fourq:unmarshal-refused",
 		"c14/Curves/goldilocks:frombytes-ok", "c14/Curves/goldilocks:frombytes-refused")
 	ks := p384Kinds()
